@@ -181,8 +181,9 @@ func prepareReassembly(bs []Bundle) error {
 			return fmt.Errorf("next fragment starts at offset %d, gap from %d to %d", fragOff, lastIndex, fragOff)
 		} else if payloadBlock, err := b.PayloadBlock(); err != nil {
 			return err
-		} else {
-			lastIndex = fragOff + uint64(len(payloadBlock.Value.(*PayloadBlock).Data()))
+		} else if fragEnd := fragOff + uint64(len(payloadBlock.Value.(*PayloadBlock).Data())); fragEnd > lastIndex {
+			// Fragments may overlap or be contained in an earlier one; keep the furthest end seen so far.
+			lastIndex = fragEnd
 		}
 	}
 
@@ -216,8 +217,11 @@ func mergeFragmentPayload(bs []Bundle) (data []byte, err error) {
 		}
 		fragPayloadData = fragPayloadBlock.Value.(*PayloadBlock).Data()
 
-		data = append(data, fragPayloadData[lastIndex-fragStartIndex:]...)
-		lastIndex = fragStartIndex + len(fragPayloadData)
+		// Skip fragments which are completely covered by the previous ones.
+		if fragEndIndex := fragStartIndex + len(fragPayloadData); fragEndIndex > lastIndex {
+			data = append(data, fragPayloadData[lastIndex-fragStartIndex:]...)
+			lastIndex = fragEndIndex
+		}
 	}
 
 	return
